@@ -232,6 +232,8 @@ def run_unit(unit, tier, seed):
 def witness_search(prop, unit_results, seed):
     """try to find a concrete failing input on the real code for failing obligations."""
     found = []
+    if os.environ.get('VERIF_SKIP_WITNESS'):
+        return found
     for r in unit_results:
         if r['status'] != 'fail':
             continue
